@@ -144,7 +144,7 @@ def impl_visit(node, handlers, c_ast, mode=0):
 
 
 # ---- generators -----------------------------------------------------------------------------
-NASTY_STRINGS = ["", "a", "it's", 'say "hi"', "both ' and \"", "back\\slash", "tab\there", "nl\nhere", "cr\rhere", "\x00\x01\x1f\x7f",
+NASTY_STRINGS = ["x" * 200, "long identifier or pragma text " * 8, "", "a", "it's", 'say "hi"', "both ' and \"", "back\\slash", "tab\there", "nl\nhere", "cr\rhere", "\x00\x01\x1f\x7f",
                  "é", "中文", "\U0001f600", "\xa0\xad", " ", "'", '"', "\\", "\\n", "'\\''", '"\\""', "\udc80", "͸"]
 
 
